@@ -1,6 +1,7 @@
 package events
 
 import (
+	"berty.tech/go-orbit-db/verifhook"
 	"container/list"
 	"context"
 	"fmt"
@@ -122,12 +123,14 @@ func (e *EventEmitter) handleSubscriber(ctx context.Context, sub event.Subscript
 			if box, ok := e.(eventBox); ok {
 				e = box.evt
 			}
+			verifhook.At("emitter.recv", sub, e)
 
 			condProcess.L.Lock()
 			if queue.Len() == 0 {
 				// try to push event to the queue
 				select {
 				case cevent <- e:
+					verifhook.At("emitter.place", sub, e, "direct")
 					condProcess.L.Unlock()
 					continue
 				default:
@@ -137,6 +140,7 @@ func (e *EventEmitter) handleSubscriber(ctx context.Context, sub event.Subscript
 			// push elem to the queue if the channel is blocking or
 			// we already have some events to process
 			queue.PushBack(e)
+			verifhook.At("emitter.place", sub, e, "queued")
 			// signal that we have element to process
 			condProcess.Signal()
 			condProcess.L.Unlock()
@@ -153,13 +157,16 @@ func (e *EventEmitter) handleSubscriber(ctx context.Context, sub event.Subscript
 			}
 
 			e := queue.Remove(queue.Front())
+			verifhook.At("emitter.dequeued", sub, e)
 
 			// Unlock cond mutex while sending the event
 			condProcess.L.Unlock()
+			verifhook.At("emitter.send", sub, e)
 
 			select {
 			case <-ctx.Done():
 			case cevent <- e:
+				verifhook.At("emitter.sent", sub, e)
 			}
 
 			condProcess.L.Lock()
